@@ -19,8 +19,10 @@ package shmipc
 // coordinator sets after the logical judgement above.
 
 import (
+	"encoding/json"
 	"fmt"
 	"math/rand"
+	"os"
 	"runtime"
 	"runtime/debug"
 	"sort"
@@ -782,7 +784,7 @@ func runMuxCase(c *checkCtx, cs muxCase) (res muxResult) {
 			res.discarded = "session died during the run"
 			break
 		}
-		if time.Since(lastChange) < 6*time.Second {
+		if time.Since(lastChange) < 4*time.Second {
 			continue
 		}
 		// nothing moved for a while: has the pair logically settled?
@@ -952,8 +954,33 @@ func checkMux(c *checkCtx) {
 	c.assume("both sessions live in one process and share one event loop and one bufferManager object; the child-process peer variant is not part of this module")
 	c.assume("an execution in which a session died or an allocator ABA suspect (known finding F1) coincided with a failure is discarded as inconclusive")
 	n := c.pick(200, 4000)
+	var replay *muxCase
+	if c.tier == "replay" {
+		// ./run.sh C07 replay <file>: the recorded case is run 20 times (schedules are not reproducible bit for bit)
+		var doc struct {
+			Witness struct {
+				Case muxCase `json:"case"`
+			} `json:"witness"`
+		}
+		data, err := os.ReadFile(os.Getenv("VERIF_REPLAY"))
+		if err != nil || json.Unmarshal(data, &doc) != nil || doc.Witness.Case.Streams == 0 {
+			c.noObservation("replay file unreadable: " + os.Getenv("VERIF_REPLAY"))
+			return
+		}
+		replay = &doc.Witness.Case
+		n = 20
+	}
+	failed := 0
 	for i := 0; i < n; i++ {
+		if failed >= 5 {
+			// the verdict is settled; blocked-reader executions cost seconds each
+			c.setExtra("stopped_early", fmt.Sprintf("after %d violating executions (%d of %d executions run)", failed, i, n))
+			break
+		}
 		cs := genMuxCase(c, i)
+		if replay != nil {
+			cs = *replay
+		}
 		res := runMuxCase(c, cs)
 		name := fmt.Sprintf("mux-%d", cs.Idx)
 		if res.x == nil {
@@ -1005,6 +1032,7 @@ func checkMux(c *checkCtx) {
 				"closes": x.closes, "bytes": x.bytesOK, "zombies": res.zombies, "signature": res.sig, "first_script": res.streams[0].Script})
 		}
 		if len(res.findings) > 0 {
+			failed++
 			sort.SliceStable(res.findings, func(a, b int) bool { return muxRank(res.findings[a].Kind) < muxRank(res.findings[b].Kind) })
 			f := res.findings[0]
 			var scr interface{}
